@@ -64,6 +64,8 @@ def currentCfg : Cfg :=
     seriesLimitFirst := seriesLimitFirstOf C09.indexGenSeriesCalls
     schemaMarkWritten := C09.schemaFlushCalls.contains "λ:value.MarkPersistedPrefix" &&
       !C09.schemaFlushCalls.contains "λ:value.MarkPersisted"
+    memdbPrepareInline := (callsBefore C09.memdbHandleCalls "idb.handleFlush").contains "indexDB.PrepareFlush" &&
+      !C09.memdbHandleFlushCalls.contains "indexDB.PrepareFlush"
     memdbExclusive := C09.memdbGetOrCreateTSICalls.contains "lock.Lock" && !C09.memdbGetOrCreateTSICalls.contains "lock.RLock"
     kvMemFirst := kvMemFirstOf C09.kvGetOrCreateCalls
     kvCacheAddGuarded := C09.kvGetOrCreateCalls.contains "s.addBucketCache" && !C09.kvGetOrCreateCalls.contains "bucketCache.Add" &&
